@@ -1,7 +1,7 @@
 """C06 -- crop keeps exactly the annotation inside the window, per mode."""
 
 from ..absint import Lin, Lst, Tup, label_var
-from ..tables import (Atoms, TableRun, build_tier, declare_tier, read_tier, run_code, run_spec, show, tier_equal)
+from ..tables import (Atoms, TableRun, build_tier, compare_outcomes, declare_tier, read_tier, run_code, run_spec, run_states, show, tier_equal)
 from . import common
 
 MODES = ["strict", "lax", "truncated"]
@@ -59,8 +59,9 @@ def table_crop(rep, kind, k, rule):
     a, b = at.var("a"), at.var("b")
     m, M = Lin.var("m"), Lin.var("M")  # the input tier's own span: never compared by crop
     tr = TableRun(rep, rule, fn.short, fn.loc)
-    for st in at.states():
-        tr.states += 1
+
+    def rows(st):
+        out = []
         for mode in (MODES if kind == "interval" else ["lax"]):
             for rebase in (True, False):
                 def code(I):
@@ -72,31 +73,11 @@ def table_crop(rep, kind, k, rule):
                     want = run_spec(idx, st, lambda O: spec_crop_interval(O, ents, a, b, mode, rebase))
                 else:
                     want = run_spec(idx, st, lambda O: spec_crop_point(O, ents, a, b, rebase))
-                compare(tr, I, st, (mode, "rebase" if rebase else "norebase"), got, want)
+                out.append(compare_outcomes(I, (mode, "rebase" if rebase else "norebase"), got, want))
+        return out
+
+    run_states(at, rows, tr)
     tr.done("%d generic entr%s x window (a,b)" % (k, "y" if k == 1 else "ies"))
-
-
-def compare(tr, I, st, mode, got, want, check_span=True):
-    case = st.describe()
-    if got.kind == "undecided" or want.kind == "undecided":
-        tr.row(case, mode, False, undecided=(got.value if got.kind == "undecided" else want.value))
-        return
-    if got.kind != want.kind:
-        tr.row(case, mode, False, "code %s, spec %s" % (fmt(got), fmt(want)))
-        return
-    if got.kind == "raise":
-        tr.row(case, mode, got.value == want.value, "code raises %s, spec raises %s" % (got.value, want.value))
-        return
-    diff = tier_equal(I, got.value, want.value, check_span)
-    tr.row(case, mode, diff is None, diff or "")
-
-
-def fmt(o):
-    if o.kind == "raise":
-        return "raises " + str(o.value)
-    if o.kind == "ok" and isinstance(o.value, dict):
-        return "returns entries %s span (%r, %r)" % (show(o.value.get("entries")), o.value.get("min"), o.value.get("max"))
-    return repr(o)
 
 
 def run(rep, tier):
